@@ -180,8 +180,9 @@ def main():
                 for nm in ("cosBeta", "tanBeta"):
                     a = getattr(r, nm, None)
                     if a is not None:
-                        for loc in ("centre", "ylow"):
-                            arrs["r%d_%s_%s" % (i, nm, loc)] = np.array(getattr(a, loc))
+                        for loc in ("centre", "ylow", "xlow"):
+                            if getattr(a, "_%s_array" % loc, None) is not None:
+                                arrs["r%d_%s_%s" % (i, nm, loc)] = np.array(getattr(a, loc))
         extra["regions"] = regs
         np.savez(os.path.join(outdir, "regions.npz"), **arrs)
         with open(os.path.join(outdir, "extra.json"), "w") as fh:
